@@ -37,6 +37,14 @@ def expand(t: ast.AST, events) -> ast.AST:
                         return self.visit(_copy(events[i].term))
                     finally:
                         self.depth -= 1
+            if len(nm) > 2 and nm[:2] == "$w" and nm[2:].isdigit():
+                i = int(nm[2:])
+                if i < len(events) and events[i].kind == "await" and self.depth < 8:
+                    self.depth += 1
+                    try:
+                        return ast.Await(value=self.visit(_copy(events[i].term)))
+                    finally:
+                        self.depth -= 1
             return n
 
     return X().visit(_copy(t))
@@ -46,6 +54,23 @@ def _copy(t):
     import copy
 
     return copy.deepcopy(t)
+
+
+def placeholder_closure(t: ast.AST, events) -> set:
+    """All placeholders the term depends on, transitively through call arguments / receivers."""
+    seen = set()
+    todo = [t]
+    while todo:
+        cur = todo.pop()
+        for n in ast.walk(cur):
+            if isinstance(n, ast.Name) and n.id.startswith("$") and n.id not in seen:
+                seen.add(n.id)
+                nm = n.id
+                if len(nm) > 2 and nm[1] in "cpw" and nm[2:].isdigit():
+                    i = int(nm[2:])
+                    if i < len(events) and events[i].term is not None:
+                        todo.append(events[i].term)
+    return seen
 
 
 def result_of(call_ev: Ev, path) -> ast.AST:
